@@ -112,6 +112,34 @@ def src_of_place(fn, place, depth=0, through_calls=()):
                     s = src_of_operand(fn, t["args"][0], depth + 1, through_calls)
                     return _extend(s, extra)
             return Src("call", term=t, site=(bi, si), fields=extra, local=l)
+    # `(x as Some).0` where x has several definitions of which exactly one builds that variant (an inlined helper returning
+    # None on its early exits and Some(v) at the end): the payload is that definition's operand
+    pp = place.get("p", [])
+    if len(defs) > 1 and depth < 40:
+        # several copies of one and the same local (the return sites of an inlined helper all assign `dest = move ret`)
+        srcs = set()
+        for d in defs:
+            if d[2] == "assign" and d[3]["k"] == "use" and "c" not in d[3]["a"]:
+                q = op_place(d[3]["a"])
+                srcs.add(q["l"] if q is not None and "p" not in q else None)
+            else:
+                srcs.add(None)
+        if len(srcs) == 1 and None not in srcs:
+            x = list(srcs)[0]
+            if x != l:
+                np_ = {"l": x}
+                if pp:
+                    np_["p"] = pp
+                return src_of_place(fn, np_, depth + 1, through_calls)
+    if len(defs) > 1 and depth < 40 and len(pp) >= 2 and isinstance(pp[0], dict) and "dc" in pp[0] and isinstance(pp[1], dict) and "f" in pp[1]:
+        var = pp[0]["dc"]
+        cands = [d for d in defs if d[2] == "assign" and d[3]["k"] == "agg" and d[3].get("n", "").endswith("::" + var)]
+        # `?` inside the helper builds the failing variant through FromResidual::from_residual: never the variant asked for
+        others_same = [d for d in defs if d not in cands and not (d[2] == "assign" and d[3]["k"] == "agg") and
+                       not (d[2] == "call" and var in ("Some", "Ok") and is_callee(d[3], r"FromResidual.*from_residual$"))]
+        if len(cands) == 1 and not others_same and pp[1]["f"].isdigit() and int(pp[1]["f"]) < len(cands[0][3].get("ops", [])):
+            s = src_of_operand(fn, cands[0][3]["ops"][int(pp[1]["f"])], depth + 1, through_calls)
+            return _extend(s, _proj_fields({"p": pp[2:]}))
     if nm is not None:
         name, rest = nm
         return Src("path", root=name, fields=_proj_fields({"p": rest}), local=l)
